@@ -76,11 +76,11 @@ func manyDigitsScenario(rt ring.Type, logN int, ch rk.Chain, opi int) engine.Sce
 		case "Relinearize":
 			runKS(c, name, p, 1, kp, level, isNTT, 0, top)
 		case "Automorphism":
-			runAuto(c, name, p, 0, p.GaloisElement(1), kp, level, isNTT, false, top)
+			runAuto(c, name, p, 0, p.GaloisElement(1), kp, level, isNTT, 0, top)
 		case "AutomorphismHoisted":
-			runAuto(c, name, p, 1, p.GaloisElement(1), kp, level, isNTT, false, top)
+			runAuto(c, name, p, 1, p.GaloisElement(1), kp, level, isNTT, 0, top)
 		default:
-			runAuto(c, name, p, 2, p.GaloisElement(1), kp, level, isNTT, false, top)
+			runAuto(c, name, p, 2, p.GaloisElement(1), kp, level, isNTT, 0, top)
 		}
 	}}
 }
